@@ -134,8 +134,13 @@ ElemUse::getNextChildElemToExecute(
             const ElemTemplateElement*      currentElem) const
 {
     const ElemTemplateElement* nextElement = 0;
-    
-    if (m_attributeSetsNamesCount > 0)
+
+    // As in getFirstChildElemToExecute(): xsl:copy uses its attribute sets only
+    // when an element node is copied.  Without this test the remaining sets were
+    // run after the content, and the content was then instantiated a second time.
+    if (m_attributeSetsNamesCount > 0 &&
+        (getXSLToken() != StylesheetConstructionContext::ELEMNAME_COPY ||
+         executionContext.getCurrentNode()->getNodeType() == XalanNode::ELEMENT_NODE))
     {
         nextElement = getNextAttributeSet(executionContext);
     }
